@@ -218,6 +218,39 @@ def battery(wn, op):
             'missing': missing, 'scope': obs_scope_x(wn, w)}
 
 
+def make_lemmatizer(wn, op):
+    lem = op.get('lemmatizer')
+    if lem is None:
+        return None
+    if lem == 'morphy':
+        from wn.morphy import Morphy
+        return Morphy()
+    if lem == 'morphy_init':
+        from wn.morphy import Morphy
+        return Morphy(wn.Wordnet(lexicon=op.get('lexicon'), lang=op.get('lang'), expand=''))
+    table = lem
+    return lambda form, pos=None: {p: set(fs) for p, fs in table.get(form, [])}
+
+
+def find(wn, op):
+    import warnings
+    with warnings.catch_warnings():
+        warnings.simplefilter('ignore')
+        try:
+            kw = {'expand': ''}
+            if op.get('normalizer') is False:
+                kw['normalizer'] = None
+            if op.get('all_forms') is False:
+                kw['search_all_forms'] = False
+            w = wn.Wordnet(lexicon=op.get('lexicon'), lang=op.get('lang'), lemmatizer=make_lemmatizer(wn, op), **kw)
+        except wn.Error:
+            return 'error'
+        f, p = op.get('form'), op.get('pos')
+        return {'words': [[_spec(x.lexicon()), x.id] for x in w.words(f, p)],
+                'senses': [[_spec(x.lexicon()), x.id] for x in w.senses(f, p)],
+                'synsets': [[_spec(x.lexicon()), x.id] for x in w.synsets(f, p)]}
+
+
 def canon_battery(b, sort_forms_tail=True):
     if b == 'error':
         return b
@@ -405,6 +438,8 @@ def run_ops_impl(wn, wnenv, scenario, batch_size=None):
                 outs.append(obs_all(wn))
             elif op['k'] == 'battery':
                 outs.append(battery(wn, op))
+            elif op['k'] == 'find':
+                outs.append(find(wn, op))
             elif op['k'] == 'lexicons':
                 outs.append([_spec(l) for l in wn.lexicons(lexicon=op.get('lexicon'), lang=op.get('lang'))])
             else:
